@@ -349,6 +349,12 @@ class Analyzer:
                         v = join(v, Val(ty={"cls:" + d.id}))
                 if p == "cls" and "cls:?" in v.ty and self.exact:
                     v = Val(ty={"cls:Fraction"})
+                if self.exact:
+                    from .exact_entries import BINDINGS
+
+                    if p in BINDINGS.get(fi.qual, {}):
+                        b = BINDINGS[fi.qual][p]
+                        v = NONE if b is None else v
             out.append(v)
         if getattr(fi, "vararg", None):
             out.append(Val(ty={"tuple"}, elem=self.annot_val(fi.node.args.vararg.annotation)))
@@ -412,7 +418,7 @@ class Analyzer:
         kinds / constants of every actual argument observed at a call site of the program"""
         seeds = self.seed_params(fi)
         obs = self.observed.get(fi.qual)
-        if obs:
+        if obs and not self.exact:  # the exact context is defined by its bindings, not by the callers
             seeds = [join(s_, o) if o is not None else s_ for s_, o in zip(seeds, obs + [None] * (len(seeds) - len(obs)))]
         ctx = self._ctx(fi, seeds, observe=False)
         self.roots[fi.qual] = ctx
@@ -501,7 +507,7 @@ class Analyzer:
         def strip(x: Val, d=0) -> Val:
             e = x.iter_join()
             k = x.kind
-            return Val(ty=x.ty, kind=k, elem=None if e is None or d >= 2 else strip(e, d + 1))
+            return Val(ty=x.ty, kind=k, fsrc=frozenset(f for f in x.fsrc if not isinstance(f, tuple)), elem=None if e is None or d >= 2 else strip(e, d + 1))
 
         s = strip(v)
         old = self.ftab.get(field)
@@ -1098,6 +1104,10 @@ class FuncInterp(ModelsMixin, CallModelsMixin):
         if handled:
             return
         self.mutate(base.pts, node, "subscript store")
+        for o in base.pts:
+            if o[0] == "G":
+                # module-level table: remember what is stored there (read back by class_attr)
+                self.A.ftab_add("$G:" + str(o[1]), v)
         # weak update of the element abstraction of every variable designating the container
         if "slice" in idx.ty and not (base.ty & {"ndarray"}):
             # lst[a:b] = seq stores the elements of seq
